@@ -43,6 +43,7 @@ type loopInfo struct {
 	blocks  map[*ssa.BasicBlock]bool
 	spec    *LoopSpec
 	old     *State // state right after havoc+assume at the head
+	calledIn map[string]bool // callees the body calls (discovered)
 }
 
 type FuncExec struct {
@@ -65,6 +66,9 @@ type FuncExec struct {
 	cellLog  map[ssa.Value]bool
 	heapInfos map[string]*heapInfo
 	universeFrozen bool
+	callLog        map[string]bool // callees executed while a loop body is being discovered
+	curCallShort   string          // the call whose site assertions are being evaluated ...
+	curCallPrev    string          // ... and whether that callee had been called before it
 	freshRefs map[string]bool
 	entry   *State
 	loops   map[*ssa.BasicBlock]*loopInfo
@@ -1940,7 +1944,19 @@ func (fx *FuncExec) discoverLoop(li *loopInfo, from *State, targets bool) (map[s
 		savedOrd[k] = v
 	}
 	su, sl := fx.unlockOrd, fx.lockOrd
+	savedCL := fx.callLog
+	fx.callLog = map[string]bool{}
 	fx.execBlocks(fx.rpo, li.blocks, li.head, from)
+	if li.calledIn == nil {
+		li.calledIn = map[string]bool{}
+	}
+	for k := range fx.callLog {
+		li.calledIn[k] = true
+		if savedCL != nil {
+			savedCL[k] = true // an enclosing loop's body calls it too
+		}
+	}
+	fx.callLog = savedCL
 	fx.unlockOrd, fx.lockOrd = su, sl
 	fx.callOrd = savedOrd
 	fx.edgeOut = savedEdges
@@ -1958,6 +1974,30 @@ func (fx *FuncExec) discoverLoop(li *loopInfo, from *State, targets bool) (map[s
 // locations keep their value. With stable == nil every written heap is wholly arbitrary.
 func (fx *FuncExec) havocForLoop(li *loopInfo, pre *State, wl map[string]bool, cl map[ssa.Value]bool, stable map[string][]string, n1 int) *State {
 	st := pre.Clone()
+	// a callee that the loop body calls may have been called in an earlier iteration: at the loop head
+	// "has been called" is unknown for it unless it was already true before the loop
+	if len(li.calledIn) > 0 {
+		var names []string
+		for k := range li.calledIn {
+			names = append(names, k)
+		}
+		sort.Strings(names)
+		if st.called == nil {
+			st.called = map[string]string{}
+		}
+		for _, k := range names {
+			prev, ok := st.called[k]
+			if ok && prev == "true" {
+				continue
+			}
+			nb := fx.em.Fresh("loop"+li.name+":called", SBool)
+			if ok {
+				st.called[k] = or(prev, nb)
+			} else {
+				st.called[k] = nb
+			}
+		}
+	}
 	var havocked []Val
 	var cells []ssa.Value
 	for c := range cl {
